@@ -140,6 +140,9 @@ def c17_escape_any(text: str) -> bool:
     return ok
 
 
+FOLLOW = "0123456789abcdefABCDEF\"\\?z" if THOROUGH else "07aF\"\\?z"
+
+
 def _cls_char(cls, x):
     """one code point of class `cls`: x is an offset inside the class"""
     lo, hi = [(0x00, 0x20), (0x20, 0x7F), (0x7F, 0xA1), (0xA1, 0x800), (0x800, 0xD800), (0xE000, 0x10000), (0x10000, 0x110000)][cls]
@@ -150,7 +153,7 @@ def c17_escape_class(cls: int, cp: int, nxt: int) -> bool:
     """
     Per character class (ASCII control, ASCII printable, C1/NBSP region, 2-, 3-, 4-byte UTF-8): one symbolic
     code point followed by one symbolic character from the context-sensitive set (hex digits, quote, backslash, ?, other).
-    pre: 0 <= cls <= 6 and 0 <= cp < 0x110000 and 0 <= nxt < 26
+    pre: 0 <= cls <= 6 and 0 <= cp < 0x110000 and 0 <= nxt < len(FOLLOW)
     post: _
     """
     cls = pick(cls, 0, 7)
@@ -158,7 +161,7 @@ def c17_escape_class(cls: int, cp: int, nxt: int) -> bool:
     if not (lo <= cp < hi):
         reached()
         return True
-    follow = "0123456789abcdefABCDEF\"\\?z"[pick(nxt, 0, 26)]
+    follow = FOLLOW[pick(nxt, 0, len(FOLLOW))]
     text = chr(cp) + follow
     lit = _literal_for(text)
     ok = lit is not None and c_decode(lit) == utf8_text(text)
@@ -332,10 +335,10 @@ def conds(tier):
     t = (lambda x, y: x) if q else (lambda x, y: y)
     M = "harness.c17"
     return [
-        xh.Cond(M, "c17_escape_any", t(240, 1800), examples=["text='a\"b'", "text='\\\\n'", "text='é'", "text='\\x80'", "text='\\x07b'", "text='\\n'"],
+        xh.Cond(M, "c17_escape_any", t(120, 1800), examples=["text='a\"b'", "text='\\\\n'", "text='é'", "text='\\x80'", "text='\\x07b'", "text='\\n'"],
                 bounds="all texts of length <= %d over all Unicode scalar values" % (2 if q else 3), needs_confirm=False),
-        xh.Cond(M, "c17_escape_class", t(300, 1800), examples=["cls=0, cp=7, nxt=11", "cls=2, cp=160, nxt=10", "cls=6, cp=128512, nxt=22", "cls=1, cp=92, nxt=23"],
-                bounds="7 code-point classes x symbolic code point in the class x 26 following characters"),
+        xh.Cond(M, "c17_escape_class", t(300, 1800), examples=["cls=0, cp=7, nxt=2", "cls=2, cp=160, nxt=2", "cls=6, cp=128512, nxt=4", "cls=1, cp=92, nxt=5"],
+                bounds="7 code-point classes x symbolic code point in the class x %d following characters (hex digits, quote, backslash, ?, other)" % len(FOLLOW)),
         xh.Cond(M, "c17_overloads", t(300, 1800), examples=["shape=0, q=0, sym='id'", "shape=4, q=1, sym='id'", "shape=9, q=0, sym='zz'"],
                 bounds="12 member-definition shapes x 12 queries x symbolic parameter name (len <= 3)"),
         xh.Cond(M, "c17_partial_xml", t(120, 600), kind="shape-bounded", examples=["shape=1", "shape=5"], bounds="6 partial-XML shapes"),
